@@ -8,13 +8,17 @@ namespace CbOblig.C11
 
 theorem key_format_is_modelled : CbGen.keyFormat = CbModel.Generic.stdFormat := by decide
 
-/-- child fields that cannot occur below a generic FUNCTION definition and need not be copied:
-    `impl_static_variables` belongs to impl-block nodes -/
-def notBelowFunctions : List String := ["impl_static_variables"]
-
+/-- clone_ast_node copies every child-node field of struct ASTNode, and substitute_type_parameters visits every
+    child it copies: no statement, operand or type name below a generic function body is dropped or left
+    unsubstituted -/
 theorem clone_copies_every_child :
     (CbGen.astChildFields.all fun f => CbGen.clonedFields.contains f) = true ∧
-    (CbGen.astChildVectors.all fun f => CbGen.clonedVectors.contains f || notBelowFunctions.contains f) = true := by
+    (CbGen.astChildVectors.all fun f => CbGen.clonedVectors.contains f) = true := by
+  decide
+
+theorem subst_visits_every_child :
+    (CbGen.astChildFields.all fun f => CbGen.substFields.contains f) = true ∧
+    (CbGen.astChildVectors.all fun f => CbGen.substVectors.contains f) = true := by
   decide
 
 end CbOblig.C11
